@@ -1,2 +1,100 @@
 (* C19 — the bundled IdP server issues assertions only to authenticated users *)
 From Saml Require Import Base IdpServer IdpServerProofs.
+
+(* All statements are about IdpServer.step (the model of samlidp/*.go and of
+   ServeSSO / ServeIDPInitiated that the correspondence check evaluates against
+   the real server), for every history of operations, every fault plan (any
+   placement of NotFound / I/O errors on the store calls) and every password
+   hashing scheme with  verify (hash p) p' = true <-> p = p'  and
+   verify empty_hash p = false. *)
+Section C19.
+Variable H : Type.
+Variable hash : string -> H.
+Variable verify : H -> string -> bool.
+Variable empty_hash : H.
+Hypothesis verify_hash : forall p p', verify (hash p) p' = true <-> p = p'.
+Hypothesis verify_empty : forall p, verify empty_hash p = false.
+
+(* In the history h1 ++ o :: h2 run from the empty server: if the reply to o
+   carries a SAML assertion for user a_user, then o presented that user's
+   stored password (password path: POST form on /sso; the IdP-initiated URL
+   does not read form credentials), or the cookie of a stored session that has
+   not expired (clock <= expiry) and was created by an earlier step of h1 that
+   presented the then-stored password of that same user. *)
+Theorem C19_assertion_only_if_authenticated : forall now h1 o h2 fp,
+  let s := fst (run_hist hash verify empty_hash (init_state H now) h1 fp) in
+  let fpi := snd (run_hist hash verify empty_hash (init_state H now) h1 fp) in
+  forall r a, In r (snd (fst (step hash verify empty_hash s o fpi))) -> r_body r = BAssertion a ->
+    In (s, o, fpi, snd (fst (step hash verify empty_hash s o fpi)))
+       (trace hash verify empty_hash (init_state H now) (h1 ++ o :: h2) fp) /\
+    exists parsed c, creds_of o = Some (parsed, c) /\
+      ((parsed = true /\ nonempty (cr_user c) = true /\
+        exists u, alookup (cr_user c) (users s) = Some u /\ verify (u_hash u) (cr_pw c) = true /\ a_user a = u_name u) \/
+       (parsed && nonempty (cr_user c) = false /\
+        exists id se, cr_cookie c = Some id /\ alookup id (sessions s) = Some se /\ clock s <= se_expire se /\
+                      a_user a = se_user se /\
+                      exists sj oj fpj rsj,
+                        In (sj, oj, fpj, rsj) (trace hash verify empty_hash (init_state H now) h1 fp) /\
+                        pw_auth_at H verify sj oj id (se_user se))).
+Proof. exact (assertion_only_if_authenticated H hash verify empty_hash). Qed.
+
+(* ... the target SP's entity ID is in the in-memory registry at that step, the
+   ACS location is one of that metadata's, and it is the SP the request (or the
+   shortcut) names *)
+Theorem C19_registered_now : forall now h fp s o fpi rs r a,
+  In (s, o, fpi, rs) (trace hash verify empty_hash (init_state H now) h fp) -> In r rs -> r_body r = BAssertion a ->
+  registered H s o a.
+Proof. exact (registered_now H hash verify empty_hash). Qed.
+
+(* the identity fields of the assertion are the user's record at this very
+   login (password path) or the snapshot stored in the session (cookie path) ... *)
+Theorem C19_user_as_at_login : forall s o fp s' rs fp' r a,
+  Inv H s -> step hash verify empty_hash s o fp = (s', rs, fp') -> In r rs -> r_body r = BAssertion a ->
+  exists parsed c, creds_of o = Some (parsed, c) /\
+    ((parsed && nonempty (cr_user c) = true /\ exists u, alookup (cr_user c) (users s) = Some u /\
+        a_user a = u_name u /\ a_nameid a = p_email (u_prof u) /\ a_prof a = u_prof u) \/
+     (parsed && nonempty (cr_user c) = false /\ exists id se, cr_cookie c = Some id /\ alookup id (sessions s) = Some se /\
+        a_user a = se_user se /\ a_nameid a = se_nameid se /\ a_prof a = se_prof se)).
+Proof. exact (user_as_at_login H hash verify empty_hash). Qed.
+
+(* ... and no operation (PutUser and DelUser included) changes a stored session *)
+Theorem C19_session_snapshot_stable : forall s o fp s' rs fp' id se se',
+  ids_fresh H s -> rand s < 10 ^ 20 -> step hash verify empty_hash s o fp = (s', rs, fp') ->
+  alookup id (sessions s) = Some se -> alookup id (sessions s') = Some se' -> se' = se.
+Proof. exact (step_sessions_stable H hash verify empty_hash). Qed.
+
+(* the invariant used above holds in every reachable state *)
+Theorem C19_invariant_reachable : forall now h fp,
+  Inv H (fst (run_hist hash verify empty_hash (init_state H now) h fp)).
+Proof. intros. apply run_inv, init_inv. Qed.
+
+(* stored password hashes are never disclosed: the only reply that carries a
+   user record (GET /users/id) carries the empty hash; no other reply body has
+   a hash component at all *)
+Theorem C19_hash_never_disclosed : forall s o fp r u,
+  In r (snd (fst (step hash verify empty_hash s o fp))) -> r_body r = BUser u -> u_hash u = empty_hash.
+Proof. exact (step_no_hash H hash verify empty_hash). Qed.
+
+(* every request receives exactly one reply, under every fault plan *)
+Theorem C19_one_reply : forall s o fp,
+  List.length (snd (fst (step hash verify empty_hash s o fp))) = if is_request o then 1%nat else 0%nat.
+Proof. exact (step_one_reply H hash verify empty_hash). Qed.
+
+(* a step that issues an assertion consumed only NoFault entries of the fault
+   plan: any store fault during the credential, session or shortcut lookups of a
+   request means no SAMLResponse in its reply *)
+Theorem C19_faults_fail_closed : forall s o fp s' rs fp' r a,
+  Inv H s -> step hash verify empty_hash s o fp = (s', rs, fp') -> In r rs -> r_body r = BAssertion a ->
+  exists n, fp' = skipn n fp /\ clean n fp.
+Proof. intros s o fp s' rs fp' r a I E Hr Hb. now destruct (step_assertion H hash verify empty_hash _ _ _ _ _ _ _ _ I E Hr Hb) as (_ & _ & X). Qed.
+
+End C19.
+
+Print Assumptions C19_assertion_only_if_authenticated.
+Print Assumptions C19_registered_now.
+Print Assumptions C19_user_as_at_login.
+Print Assumptions C19_session_snapshot_stable.
+Print Assumptions C19_invariant_reachable.
+Print Assumptions C19_hash_never_disclosed.
+Print Assumptions C19_one_reply.
+Print Assumptions C19_faults_fail_closed.
